@@ -672,17 +672,51 @@ func (m *Machine) intBinop(op token.Token, x, y *Term, ta, tb types.Type) Value 
 	}
 	_, signed, _ := intWidth(ta)
 	switch op {
-	case token.ADD:
-		return st.Bin(OpAdd, x, y)
-	case token.SUB:
-		return st.Bin(OpSub, x, y)
-	case token.MUL:
-		return st.Bin(OpMul, x, y)
+	case token.ADD, token.SUB, token.MUL:
+		bop := map[token.Token]Op{token.ADD: OpAdd, token.SUB: OpSub, token.MUL: OpMul}[op]
+		full := st.Bin(bop, x, y)
+		// width narrowing: when the interval facts show that the exact (non-wrapping) result
+		// fits in 31 bits, build the operation at 32 bits. Equal to the full-width operation
+		// on every value the path condition admits; much cheaper to bit-blast.
+		if x.w == 64 && full.op != OpConst && (x.op != OpConst || y.op != OpConst) {
+			ix, iy := m.interval(x, 0), m.interval(y, 0)
+			const lim = uint64(1) << 31
+			ok := false
+			switch op {
+			case token.ADD:
+				ok = ix.hi < lim && iy.hi < lim && ix.hi+iy.hi < lim
+			case token.SUB:
+				ok = ix.hi < lim && iy.hi < lim && ix.lo >= iy.hi
+			case token.MUL:
+				ok = ix.hi < lim && iy.hi < lim && ix.hi*iy.hi < lim
+			}
+			if ok {
+				return st.ZExt(st.Bin(bop, st.Trunc(x, 32), st.Trunc(y, 32)), 64)
+			}
+		}
+		return full
 	case token.QUO, token.REM:
 		// division by zero panics
 		zero := st.Const(y.w, 0)
 		if m.branch(st.Eq(y, zero)) {
 			m.goPanic("integer divide by zero")
+		}
+		// narrow the operation when both operands are provably small and non-negative
+		// (cheap for the solver; equal to the full-width operation on every value the
+		// path condition admits)
+		ix, iy := m.interval(x, 0), m.interval(y, 0)
+		half := uint64(1) << (x.w - 1)
+		if ix.hi < half && iy.hi < half {
+			signed = false
+			for _, nw := range []uint8{8, 16, 32} {
+				if nw < x.w && ix.hi <= mask(nw) && iy.hi <= mask(nw) {
+					nx, ny := st.Trunc(x, nw), st.Trunc(y, nw)
+					if op == token.QUO {
+						return st.ZExt(st.Bin(OpUDiv, nx, ny), x.w)
+					}
+					return st.ZExt(st.Bin(OpURem, nx, ny), x.w)
+				}
+			}
 		}
 		if signed {
 			if op == token.QUO {
@@ -923,7 +957,7 @@ func (m *Machine) boundsCheck(idx *Term, signed bool, n int, what string) {
 		return
 	}
 	// cheap upper bound
-	if mx, ok := maxValue(idx); ok && mx < uint64(n) && (!signed || mx <= uint64(math.MaxInt64)) {
+	if mx := m.interval(idx, 0).hi; mx < uint64(n) && (!signed || mx <= uint64(math.MaxInt64)) {
 		return
 	}
 	inb := st.Bin(OpULt, idx, st.Const(idx.w, uint64(n)))
